@@ -95,7 +95,9 @@ func (p *Parser) ParseFile(filename string, varPool *VarPool) (*MetaData, []*Bui
 	}
 
 	for _, f := range pkg.Syntax {
-		if f == nil {
+		// Output of an earlier run (possibly stale or truncated) must not influence this
+		// run: the names and imports it declares are regenerated, not user declarations.
+		if f == nil || isKessokuGenerated(f) {
 			continue
 		}
 
@@ -131,7 +133,7 @@ func (p *Parser) ParseFile(filename string, varPool *VarPool) (*MetaData, []*Bui
 	}
 
 	for _, f := range pkg.Syntax {
-		if f == nil {
+		if f == nil || isKessokuGenerated(f) {
 			continue
 		}
 
@@ -222,6 +224,23 @@ func (p *Parser) initializePackages(filename string) (*packages.Package, error) 
 }
 
 // FindInjectDirectives finds all kessoku.Inject calls in the AST.
+// isKessokuGenerated reports whether f is a file written by this generator, recognised by
+// the header comment Generate puts in front of the package clause.
+func isKessokuGenerated(f *ast.File) bool {
+	for _, group := range f.Comments {
+		if group.Pos() >= f.Package {
+			break
+		}
+		for _, c := range group.List {
+			if c.Text == generatedFileHeader {
+				return true
+			}
+		}
+	}
+
+	return false
+}
+
 func (p *Parser) findInjectDirectives(file *ast.File, pkg *packages.Package, kessokuPackageScope *types.Scope, imports map[string]*Import, fileImports []*ast.ImportSpec, varPool *VarPool) ([]*BuildDirective, error) {
 	injectorObj := kessokuPackageScope.Lookup("Inject")
 	if injectorObj == nil || injectorObj.Type() == nil {
